@@ -29,9 +29,14 @@ def init_worker():
     import skoolkit.disassembler as dis
     import skoolkit.skoolutils as su
     import skoolkit.snaskool as ss
-    numerals.install(skoolkit, z80, dis, su, ss, with_eval=True, with_chr=True)
+    import skoolkit.skool2bin as s2b
+    import skoolkit.skoolparser as sp
+    import skoolkit.ctlparser as cp
+    import skoolkit.textutils as tu
+    numerals.install(skoolkit, z80, dis, su, ss, s2b, sp, cp, tu, with_eval=True, with_chr=True)
     import shims
-    shims.install_isinstance(z80, dis, skoolkit, su, ss)
+    shims.install_isinstance(z80, dis, skoolkit, su, ss, s2b, sp, cp, tu)
+    cp.warn = ss.warn = lambda *a: None
 
 
 def new_res():
@@ -92,7 +97,7 @@ def ctl_corpus(tier):
     out.append(('M directive', 6, 'b {0}\nM {0},6 spanning comment\nB {0},3\nW {3},2\nB {5},1\ni {6}', None))
     out.append(('ignored middle', 6, 'b {0}\nB {0},2\ni {2}\nb {4}\nB {4},2,b1\ni {6}', None))
     for key, code in CODE.items():
-        if key in ('ld9', 'fill33', 'top', 'topjr'):
+        if key in ('ld9', 'fill33', 'top', 'topjr', 'jumpsc'):
             continue
         n = len(code)
         out.append(('code %s' % key, n, 'c {0}\ni {%d}' % n, key))
@@ -114,6 +119,7 @@ def ctl_corpus(tier):
 
 CODE['ld9'] = [0x3E, None] + [None] * 7
 CODE['fill33'] = [33] * 6
+CODE['jumpsc'] = [0x18, 0x02, 0x10, 0xFC, 0xC3, (A + 2) % 256, (A + 2) // 256, 0xCD, 0x00, 0x80]     # JR $+4 / DJNZ $-2 / JP A+2 / CALL 32768
 CODE['top'] = [0x3E, None, 0x18, None, 0x10, None]
 CODE['topjr'] = [0x20, None, 0x18, None]
 
@@ -126,6 +132,37 @@ def fmt_ctl(text, base=A):
 def corpus_entry(tier, ci):
     e = ctl_corpus(tier)[ci]
     return e if len(e) > 4 else e + (A,)
+
+
+def build_snap(path, ctltext, codekey, n, A):
+    snap = [0] * 65536
+    code = CODE.get(codekey)
+    # character-based statements fork ~10 ways per symbolic byte (printable? quote? backslash? inverted?): in shapes that
+    # use them only two bytes are symbolic, the others are fixed to characters that exercise the escaping rules
+    ct = '\n' + fmt_ctl(ctltext, A)
+    textual = any(x in ct for x in ('\nT ', '\nt ', 'c1', 'c2', 'c3', ':c', ',c'))
+    fill = ct.startswith('\ns ') or '\nS ' in ct
+    FIXED = [65, 34, 200, 92, 0, 126, 220, 32, 94, 127, 96, 162, 59, 44]
+    symk = {0, 2} if textual else set(range(n))
+    if codekey == 'ld9':
+        symk = {1, 2, 5}
+    fillv = None
+    for k in range(n):
+        if code and code[k] is not None:
+            snap[A + k] = code[k]
+        elif fill and not textual:
+            # DEFS statements describe runs: one symbolic fill value (set() over the data realises it: 256 cases)
+            if fillv is None:
+                fillv = sym_int('m0', 0, 255)
+                # bound: the fill value ranges over the values that matter to formatting (it is realised by set())
+                path.assume(z3.Or(*[fillv.e == v for v in (0, 1, 32, 34, 65, 92, 127, 128, 255)]))
+            snap[A + k] = fillv
+        elif k not in symk:
+            snap[A + k] = FIXED[k % len(FIXED)]
+        else:
+            snap[A + k] = sym_int('m%d' % k, 0, 255)
+    path.data['snapwin'] = snap[A:A + n]
+    return snap
 
 
 def check_ctl(item):
@@ -144,33 +181,7 @@ def check_ctl(item):
     open(ctlfile, 'w').write(fmt_ctl(ctltext, A) + '\n')
 
     def fn(path):
-        snap = [0] * 65536
-        code = CODE.get(codekey)
-        # character-based statements fork ~10 ways per symbolic byte (printable? quote? backslash? inverted?): in shapes that
-        # use them only two bytes are symbolic, the others are fixed to characters that exercise the escaping rules
-        ct = '\n' + fmt_ctl(ctltext, A)
-        textual = any(x in ct for x in ('\nT ', '\nt ', 'c1', 'c2', 'c3', ':c', ',c'))
-        fill = ct.startswith('\ns ') or '\nS ' in ct
-        FIXED = [65, 34, 200, 92, 0, 126, 220, 32, 94, 127, 96, 162, 59, 44]
-        symk = {0, 2} if textual else set(range(n))
-        if codekey == 'ld9':
-            symk = {1, 2, 5}
-        fillv = None
-        for k in range(n):
-            if code and code[k] is not None:
-                snap[A + k] = code[k]
-            elif fill and not textual:
-                # DEFS statements describe runs: one symbolic fill value (set() over the data realises it: 256 cases)
-                if fillv is None:
-                    fillv = sym_int('m0', 0, 255)
-                    # bound: the fill value ranges over the values that matter to formatting (it is realised by set())
-                    path.assume(z3.Or(*[fillv.e == v for v in (0, 1, 32, 34, 65, 92, 127, 128, 255)]))
-                snap[A + k] = fillv
-            elif k not in symk:
-                snap[A + k] = FIXED[k % len(FIXED)]
-            else:
-                snap[A + k] = sym_int('m%d' % k, 0, 255)
-        path.data['snapwin'] = snap[A:A + n]
+        snap = build_snap(path, ctltext, codekey, n, A)
         parser = cp.CtlParser()
         parser.parse_ctls([ctlfile], A, min(A + n + 1, 65536))
         config = {'DefbSize': sizes[0], 'DefmSize': sizes[1], 'DefwSize': sizes[2], 'Opcodes': opcodes, 'Wrap': 0, 'HandleRST': 0, 'Title-b': '', 'Title-c': '', 'Title-g': '', 'Title-i': '',
@@ -252,12 +263,114 @@ def check_ctl(item):
     return finish(res, st)
 
 
+def check_pipe(item):
+    """('pipe', corpus index, hex, lower, sizes, tier): the textual route - the real SkoolWriter writes the skool file (numbers are
+    numeral tokens), the real skool2bin BinWriter reads that text and assembles it: the image equals the memory at every
+    address of a non-ignored block"""
+    _, ci, hexmode, lower, sizes, tier = item
+    name0, n, ctltext, codekey, A = corpus_entry(tier, ci)
+    if codekey == 'jumps':
+        codekey = 'jumpsc'        # the skool writer keys its referrer bookkeeping by jump target: concrete targets on this route
+    st = Stats()
+    res = new_res()
+    import ctlpipe
+    import asmpipe
+    name = 'skool file -> skool2bin [%s] %s%s sizes=%r' % (name0, 'hex' if hexmode else 'dec', ' lower' if lower else '', sizes)
+    cp_ = ctlpipe.Pipe()
+    ap_ = asmpipe.Pipe()
+    ctl_lines = fmt_ctl(ctltext, A).split('\n')
+    tops = sorted((int(l.split()[1]), l[0]) for l in ctl_lines if l[:1].islower() and l[:1] in 'bcgistuw' and l[1:2] == ' ')
+    cover = []
+    for (a, c), nxt in zip(tops, tops[1:] + [(A + n, 'i')]):
+        if c != 'i':
+            cover.extend(range(a, min(nxt[0], A + n)))
+
+    def fn(path):
+        import symx
+        snap = build_snap(path, ctltext, codekey, n, A)
+        # skool2bin looks every numeric operand up in a dictionary of instruction addresses (to relocate it): a symbolic word
+        # is hashed by identity there, i.e. taken not to be the address of an instruction that moved (nothing moves in these files
+        # unless skool2bin itself misplaces a statement, which the comparison below catches)
+        symx.HASH_BY_IDENTITY = True
+        try:
+            return run(snap)
+        finally:
+            symx.HASH_BY_IDENTITY = False
+
+    def run(snap):
+        lines = cp_.skool_from_ctl(snap, ctl_lines, A, min(A + n + 1, 65536), base=16 if hexmode else 10, case=1 if lower else 2, sizes=sizes)
+        bw = ap_.skool2bin('\n'.join(lines) + '\n', 0, 0)
+        return snap, bw, lines
+
+    def on(p, out):
+        res['obligations'] += 1
+        memv = lambda mod: [mod.eval(bv(x), model_completion=True).as_long() if not isinstance(x, int) else x for x in p.data.get('snapwin', [0] * n)]
+        if isinstance(out, tuple) and out[0] == 'exception':
+            r, mod = p.check(model=True)
+            res['violations'].append(dict(key='pipe [%s]:exception:%s' % (name0, type(out[1]).__name__), text='%s with memory %r raises %r' % (name, memv(mod), out[1]),
+                                          case=dict(kind='pipe', ci=ci, hex=hexmode, lower=lower, sizes=sizes, tier=tier, mem=memv(mod))))
+            return
+        snap, bw, lines = out
+        diffs, names = [], []
+        for a in cover:
+            diffs.append(bv(bw.snapshot[a]) != bv(snap[a])); names.append('address %d' % a)
+        if p.data.get('radix_confusion'):
+            diffs.append(z3.BoolVal(True)); names.append('a numeral is parsed in the wrong radix')
+        r, mod, which = p.check_any(diffs, names)
+        if r == 'unknown':
+            res['inconclusive'].append(name); return
+        if r == 'sat':
+            res['violations'].append(dict(key='pipe [%s]:bytes differ' % name0, text='%s with memory %r: skool2bin does not reproduce %s' % (name, memv(mod), ', '.join(which[:4])),
+                                          case=dict(kind='pipe', ci=ci, hex=hexmode, lower=lower, sizes=sizes, tier=tier, mem=memv(mod))))
+            return
+        res['discharged'] += 1
+        res['nontrivial'] += 1
+        if not res['samples']:
+            res['samples'].append({'item': name, 'skool': [numerals.skeleton(x) for x in lines[:5]], 'verdict': 'unsat'})
+
+    try:
+        explore(fn, stats=st, on_path=on, max_paths=30000)
+    except Inconclusive as e:
+        res['inconclusive'].append('%s: %s' % (name, e))
+    finally:
+        cp_.close(); ap_.close()
+    return finish(res, st)
+
+
+def replay_pipe(case):
+    import ctlpipe
+    import asmpipe
+    name0, n, ctltext, codekey, A = corpus_entry(case['tier'], case['ci'])
+    cp_, ap_ = ctlpipe.Pipe(), asmpipe.Pipe()
+    try:
+        snap = [0] * 65536
+        snap[A:A + n] = case['mem']
+        ctl_lines = fmt_ctl(ctltext, A).split('\n')
+        try:
+            lines = cp_.skool_from_ctl(snap, ctl_lines, A, min(A + n + 1, 65536), base=16 if case['hex'] else 10, case=1 if case['lower'] else 2, sizes=tuple(case['sizes']))
+            bw = ap_.skool2bin('\n'.join(lines) + '\n', 0, 0)
+        except Exception as e:
+            return True, 'raises %r' % e
+        tops = sorted((int(l.split()[1]), l[0]) for l in ctl_lines if l[:1].islower() and l[:1] in 'bcgistuw' and l[1:2] == ' ')
+        bad = []
+        for (a, c), nxt in zip(tops, tops[1:] + [(A + n, 'i')]):
+            if c != 'i':
+                for x in range(a, min(nxt[0], A + n)):
+                    if bw.snapshot[x] != snap[x]:
+                        bad.append('address %d: original %d, skool2bin %d' % (x, snap[x], bw.snapshot[x]))
+        return bool(bad), '; '.join(bad[:4]) or 'skool2bin reproduces every byte'
+    finally:
+        cp_.close(); ap_.close()
+
+
 def work(item):
-    return check_ctl(item)
+    return check_pipe(item) if item[0] == 'pipe' else check_ctl(item)
 
 
 def replay(case):
     """concrete re-run through the real tools: sna2skool-style Disassembly + SkoolWriter text + skool2bin BinWriter"""
+    if case.get('kind') == 'pipe':
+        return replay_pipe(case)
     import io
     import skoolkit.ctlparser as cp
     import skoolkit.snaskool as ss
@@ -321,6 +434,9 @@ def main():
                     if opcodes == 'ALL' and not corpus[ci][0].startswith('code'):
                         continue
                     items.append(('ctl', ci, hexmode, lower, sizes, opcodes, args.tier))
+            if corpus_entry(args.tier, ci)[4] == A:
+                # the textual route (SkoolWriter text -> skool2bin) for one size setting per base/case
+                items.append(('pipe', ci, hexmode, lower, size_sets[1], args.tier))
     if args.only:
         items = [i for i in items if args.only in harness.item_name(i) or args.only in corpus[i[1]][0]]
     rep = harness.Report(
